@@ -37,7 +37,8 @@ METAS_SMALL = [meta(), meta(k1=S('a')), meta(k1=S('ab'), k2=V('num', 10)), meta(
 
 def consts(**over):
     c = dict(Cats=['A', 'AB'], Metas=METAS_SMALL[:3], FilterNames=['none', 'k1a'], Limits=[0, 1], Randoms=[False],
-             Ops=['get', 'getmeta', 'unknown', 'list', 'default'], MaxSaves=2, MaxQueries=1, Population=[])
+             Ops=['get', 'getmeta', 'unknown', 'list', 'default'], MaxSaves=2, MaxQueries=1, Population=[],
+             Probes=[False])
     c.update(over)
     return c
 
@@ -46,7 +47,8 @@ def to_tla_consts(c):
     def recset(lst):
         return Raw('{' + ', '.join(mc.tla(x) for x in lst) + '}')
     return dict(Cats=set(c['Cats']), Metas=recset(c['Metas']), FilterNames=set(c['FilterNames']),
-                Limits=set(c['Limits']), Randoms=set(c['Randoms']), Ops=set(c['Ops']), MaxSaves=c['MaxSaves'],
+                Limits=set(c['Limits']), Randoms=set(c['Randoms']), Ops=set(c['Ops']), Probes=set(c['Probes']),
+                MaxSaves=c['MaxSaves'],
                 MaxQueries=c['MaxQueries'],
                 Population=Raw('<<' + ', '.join(mc.tla({'cat': p[0], 'meta': p[1]}) for p in c['Population']) + '>>'))
 
@@ -105,6 +107,11 @@ def py_meta(m, rnd=None, rich=False):
     if rich and rnd is not None:
         out['extra'] = rnd.choice([v for v in pool() if not isinstance(v, (bytes, set, tuple)) and
                                    not hasattr(v, '__dict__')][:20])
+        if rnd.random() < 0.3:
+            # the same list / dict object in two places of the metadata (whole-document validation applies)
+            shared = rnd.choice([['blue', 'green'], {'sh': [1, 2]}])
+            out['tags'] = shared
+            out['more'] = {'again': shared, 'n': 1}
     return out
 
 
@@ -124,7 +131,7 @@ def composite_is_faithful(data, meta):
     from jsonpickle import encode, decode
     try:
         for doc in ({'recording_data': data, 'recording_metadata': meta},
-                    dict(list(data.items()) + [('_metadata', meta)])):
+                    dict(list(data.items()) + [('_metadata', meta)]), meta):
             if not same_value(decode(encode(doc, unpicklable=True)), doc):
                 return False
         return True
@@ -176,8 +183,18 @@ class StoreDriver(object):
         def mm(cat, idx, exp, obs, note):
             out.append({'cat': cat, 'step': idx, 'expected': repr(exp)[:400], 'observed': repr(obs)[:400], 'note': note})
 
-        def do_save(cat, m):
+        def do_save(cat, m, probe=False, idx=0):
             r = writer.create_new_recording(cat)
+            if probe:
+                # the id exists, nothing is stored under it yet: looked up through the very cassette that will save it
+                for fn, name in ((writer.get_recording, 'get_recording'), (writer.get_recording_metadata, 'get_recording_metadata')):
+                    try:
+                        got = fn(r.id)
+                        mm('unknown', idx, 'NoSuchRecording', got, '%s(%r) of a created, not yet saved recording' % (name, r.id))
+                    except pbexc.NoSuchRecording:
+                        pass
+                    except Exception as ex:  # noqa
+                        mm('unknown', idx, 'NoSuchRecording', repr(ex), '%s(%r) of a created, not yet saved recording' % (name, r.id))
             for _attempt in range(20):
                 data = make_data(rnd, self.rich)
                 pm = py_meta(m, rnd, self.rich)
@@ -193,6 +210,17 @@ class StoreDriver(object):
             ids.append(r.id)
             import copy
             saved.append((copy.deepcopy(data), copy.deepcopy(pm)))
+            if probe:
+                try:
+                    full = writer.get_recording(r.id)
+                    alone = writer.get_recording_metadata(r.id)
+                    if set(full.get_all_keys()) != set(data) or not same_value(dict(alone), pm) or \
+                            not same_value(dict(full.get_metadata()), pm):
+                        mm('roundtrip', idx, (sorted(data), pm), (sorted(full.get_all_keys()), dict(alone)),
+                           'recording fetched through the saving cassette right after the save')
+                except Exception as ex:  # noqa
+                    mm('roundtrip', idx, 'recording %s' % r.id, repr(ex),
+                       'saved recording cannot be fetched through the cassette that saved it (it was looked up before the save)')
         try:
             for p in beh[0]['saved']:
                 do_save(p['cat'], p['meta'])
@@ -202,7 +230,7 @@ class StoreDriver(object):
                 reader = reader_factory()
                 if k == 'save':
                     try:
-                        do_save(e['cat'], e['meta'])
+                        do_save(e['cat'], e['meta'], bool(e.get('probed')), idx)
                     except Exception as ex:  # noqa
                         mm('save', idx, 'saved', repr(ex), 'save failed')
                         return out
